@@ -1800,7 +1800,17 @@ def builtin_call(fr: Frame, name, args, kwargs):
             return TypeRef("ndarray")
         raise Unsupported("type() of this value")
     if name == "sorted":
-        raise Unsupported("sorted()")
+        x = args[0]
+        if kwargs:
+            raise Unsupported("sorted() with key/reverse")
+        if isinstance(x, (list, tuple)) and all(isinstance(v, (int, str)) and not isinstance(v, bool) for v in x):
+            return sorted(x)
+        a = N.asarray(x)
+        if a.ndim != 1:
+            raise Unsupported("sorted() of a non-sequence")
+        perm = N.argsort(a)
+        f = a.snapshot_fn()
+        return Seq(a.extent(0), lambda k, f=f, perm=perm: f(((perm.get(k),),)))
     if name == "reversed":
         x = args[0]
         if isinstance(x, (list, tuple)):
